@@ -22,3 +22,18 @@ Theorem C20_legacy_out_of_range :
   valid_counterparty_with is_integer_legacy "-1" protocol_cctp = true /\
   valid_counterparty_with is_integer_legacy "+7" protocol_cctp = true.
 Proof. vm_compute. repeat split; reflexivity. Qed.
+
+(* finding 5 (C04, C14): two fixed fees whose sum reaches 2^256 made Total.Add panic at the pinned
+   commit; the repaired code (SafeAdd) refuses with an error. *)
+From Orbiter Require Import Lib.Res Model.Env Model.Fee.
+Import ListNotations.
+Open Scope Z_scope.
+Definition big_env : env :=
+  env_of [("r"%string, Some "a"%string)] [("2^255"%string, Some (2 ^ 255))].
+Definition two_big_fees : list (option fee_info) :=
+  [Some {| fi_recipient := "r"; fi_type := Some (FAmount "2^255") |};
+   Some {| fi_recipient := "r"; fi_type := Some (FAmount "2^255") |}].
+Theorem C04_legacy_refuted :
+  is_panic (fee_plan_legacy big_env (2 ^ 256 - 1) two_big_fees) = true /\
+  is_panic (fee_plan big_env (2 ^ 256 - 1) two_big_fees) = false.
+Proof. vm_compute. split; reflexivity. Qed.
